@@ -65,7 +65,7 @@ register(
     "Structural conditions for references being the inverse of go-to-definition: (R3c) the per-file usage map and its "
     "per-name reverse index are appended in step from one FixtureUsage, removals are paired with a by-file clear of "
     "the reverse index, no other writer exists. The equivalence itself for every (definition, usage) pair is not decided.",
-    [r3.r3c_reverse_index, r3.r3a_clean_before_append, r5.r5c_selfref_pairing] + CACHE,
+    [r3.r3c_reverse_index, r3.r3a_clean_before_append, r5.r5c_selfref_pairing, r5.r5g_usage_attribution, r4.r4b_unordered_pick] + CACHE,
 )
 
 from . import r3d
@@ -118,7 +118,7 @@ register(
     "site of the cascade, (R5c) every caller that resolves usages pairs the non-excluding and the excluding resolver "
     "under a test of the current definition's name against the usage name (memo lookups included). Cursor-column "
     "arithmetic and chain semantics are not decided.",
-    [r5.r5b_filter_everywhere, r5.r5c_selfref_pairing] + CACHE,
+    [r5.r5b_filter_everywhere, r5.r5c_selfref_pairing, r5.r5h_usage_before_definition_line, r4.r4b_unordered_pick] + CACHE,
 )
 
 from . import r4
@@ -143,7 +143,7 @@ register(
     "selection sites cover the same-file / conftest / plugin / third-party stages) use the same selector class per "
     "stage as the navigation cascade, (R5a) none of them selects by name alone. Agreement on every input and the "
     "hover/inlay text are not decided.",
-    [r5.r5d_siblings, _r5a_c05, r5.r5c_selfref_pairing, r5.r5f_walk_bounds] + CACHE,
+    [r5.r5d_siblings, _r5a_c05, r5.r5c_selfref_pairing, r5.r5f_walk_bounds, r5.r5g_usage_attribution, r5.r5h_usage_before_definition_line] + CACHE,
 )
 
 register(
@@ -152,7 +152,7 @@ register(
     "before it is returned, (R4b) first-match exits from such iterations are reviewed for uniqueness of the match, "
     "(R4c) order-sensitive selections over the per-name definition vector (registration order = scan schedule) are "
     "pinned to one file. Ties under non-total sort keys and other channels of nondeterminism are not decided.",
-    [r4.r4a_unordered, r4.r4b_unordered_pick, r5.r4c_order_sensitive, r2.r2a_atomic_ops, r10.r10f_no_short_circuit, r1.r1f_no_try_lock],
+    [r4.r4a_unordered, r4.r4b_unordered_pick, r5.r4c_order_sensitive, r2.r2a_atomic_ops, r10.r10f_no_short_circuit, r1.r1f_no_try_lock, r4.r4d_sort_keys_are_projections],
 )
 
 from . import r8
@@ -184,7 +184,7 @@ register(
     "like the server. Equality of counts with the server and byte-identical output are not decided.",
     [r8.r11b_exit_status, r8.r11d_json_output, r8.r11e_report_root_is_scan_root,
      lambda ctx: r4.r4a_unordered(ctx, only_fns=["get_unused_fixtures", "print_fixtures_tree", "compute_definition_usage_counts"], rule="R4a"),
-     r5.r5c_selfref_pairing],
+     r5.r5c_selfref_pairing, r4.r4d_sort_keys_are_projections],
 )
 
 register(
@@ -206,7 +206,7 @@ register(
     "their progress step on every path and the dependency-graph worklist expands each node once. Other panic sources "
     "(slice bounds, usize arithmetic, range order), panics inside dependencies, stack exhaustion and scan isolation are "
     "not decided.",
-    [r7.r7_slicing, r7.r7_u32_overflow, r7.r7_unwrap, r1e.r1e_loop_progress, r1.r1a_reentrancy, r1.r1b_order, r1.r1c_await, r1.r1d_recursion],
+    [r7.r7_slicing, r7.r7_range_order, r7.r7_sub_underflow, r7.r7_u32_overflow, r7.r7_unwrap, r1e.r1e_loop_progress, r1.r1a_reentrancy, r1.r1b_order, r1.r1c_await, r1.r1d_recursion],
 )
 
 from . import r10
